@@ -8,9 +8,11 @@ import (
 	"encoding/pem"
 	"fmt"
 	"go/ast"
+	"go/importer"
 	"go/parser"
 	"go/printer"
 	"go/token"
+	"go/types"
 	"net/http"
 	"os"
 	"path/filepath"
@@ -38,10 +40,75 @@ func repoRoot() string {
 	return "/repo"
 }
 
+// mapReads type-checks every non-test package under root from source (go/types, source importer; no
+// export data needed) and returns the positions of index expressions that READ a map: such an
+// expression cannot panic (a nil map reads as empty), unlike slice/array/string indexing and map writes.
+// Expressions whose type cannot be established stay in the inventory.
+func mapReads(root string) map[string]bool {
+	res := map[string]bool{}
+	fset := token.NewFileSet()
+	dirs := map[string][]*ast.File{}
+	filepath.Walk(root, func(path string, info os.FileInfo, err error) error {
+		if err != nil {
+			return nil
+		}
+		if info.IsDir() {
+			if strings.HasPrefix(info.Name(), ".") && path != root {
+				return filepath.SkipDir
+			}
+			return nil
+		}
+		if !strings.HasSuffix(path, ".go") || strings.HasSuffix(path, "_test.go") {
+			return nil
+		}
+		if f, err := parser.ParseFile(fset, path, nil, 0); err == nil {
+			dirs[filepath.Dir(path)] = append(dirs[filepath.Dir(path)], f)
+		}
+		return nil
+	})
+	if wd, err := os.Getwd(); err == nil {
+		defer os.Chdir(wd)
+	}
+	os.Chdir(root)
+	imp := importer.ForCompiler(fset, "source", nil)
+	for d, files := range dirs {
+		info := &types.Info{Types: map[ast.Expr]types.TypeAndValue{}}
+		conf := types.Config{Importer: imp, Error: func(error) {}}
+		conf.Check(d, fset, files, info)
+		for _, f := range files {
+			written := map[ast.Expr]bool{}
+			ast.Inspect(f, func(n ast.Node) bool {
+				switch s := n.(type) {
+				case *ast.AssignStmt:
+					for _, l := range s.Lhs {
+						written[l] = true
+					}
+				case *ast.IncDecStmt:
+					written[s.X] = true
+				}
+				return true
+			})
+			ast.Inspect(f, func(n ast.Node) bool {
+				if ie, ok := n.(*ast.IndexExpr); ok && !written[ie] {
+					if tv, ok := info.Types[ie.X]; ok && tv.Type != nil {
+						if _, ok := tv.Type.Underlying().(*types.Map); ok {
+							pos := fset.Position(ie.Pos())
+							res[fmt.Sprintf("%s:%d:%d", pos.Filename, pos.Line, pos.Column)] = true
+						}
+					}
+				}
+				return true
+			})
+		}
+	}
+	return res
+}
+
 func siteInventory() ([]string, error) {
 	root := repoRoot()
 	var keys []string
 	fset := token.NewFileSet()
+	safeIndex := mapReads(root)
 	err := filepath.Walk(root, func(path string, info os.FileInfo, err error) error {
 		if err != nil {
 			return err
@@ -145,23 +212,24 @@ func siteInventory() ([]string, error) {
 			ast.Inspect(fd.Body, func(n ast.Node) bool {
 				switch e := n.(type) {
 				case *ast.IndexExpr:
-					if !commaOK[e] {
-						keys = append(keys, fmt.Sprintf("%s|%s|index|%s", pkg, fn, exprText(fset, e)))
+					pos := fset.Position(e.Pos())
+					if !commaOK[e] && !safeIndex[fmt.Sprintf("%s:%d:%d", pos.Filename, pos.Line, pos.Column)] {
+						keys = append(keys, fmt.Sprintf("%s|index|%s", pkg, exprText(fset, e)))
 					}
 				case *ast.SliceExpr:
-					keys = append(keys, fmt.Sprintf("%s|%s|slice|%s", pkg, fn, exprText(fset, e)))
+					keys = append(keys, fmt.Sprintf("%s|slice|%s", pkg, exprText(fset, e)))
 				case *ast.TypeAssertExpr:
 					if !commaOK[e] && !inTypeSwitch[e] && e.Type != nil {
-						keys = append(keys, fmt.Sprintf("%s|%s|assert|%s", pkg, fn, exprText(fset, e)))
+						keys = append(keys, fmt.Sprintf("%s|assert|%s", pkg, exprText(fset, e)))
 					}
 				case *ast.StarExpr:
 					if isType(e.X) {
 						return true
 					}
-					keys = append(keys, fmt.Sprintf("%s|%s|deref|%s", pkg, fn, exprText(fset, e)))
+					keys = append(keys, fmt.Sprintf("%s|deref|%s", pkg, exprText(fset, e)))
 				case *ast.CallExpr:
 					if id, ok := e.Fun.(*ast.Ident); ok && id.Name == "panic" {
-						keys = append(keys, fmt.Sprintf("%s|%s|panic|%s", pkg, fn, exprText(fset, e)))
+						keys = append(keys, fmt.Sprintf("%s|panic|%s", pkg, exprText(fset, e)))
 					}
 				}
 				return true
